@@ -12,9 +12,19 @@ REMOVAL_FUNCS = {"_iteration_remove_empty_shapes"}
 CAP_CLASSES = {"InstanceCapMode"}
 
 
-def _is_init_value(v, target):
+def _is_init_value(v, target, f=None, depth=0):
     if is_lit(v, 0):
         return True
+    # dict() / list() / set() / tuple(): the empty container by another spelling
+    if isinstance(v, ast.Call) and isinstance(v.func, ast.Name) and v.func.id in ("dict", "list", "set") and not v.args and not v.keywords:
+        return True
+    # a hook of the object that only ever returns such a value (`self._empty_class_profile()`)
+    if f is not None and depth < 2 and isinstance(v, ast.Call) and not v.args and not v.keywords and is_self_attr(v.func) and f.cls is not None:
+        impls = [c.methods[v.func.attr] for c in [f.cls] + f.cls.all_subclasses() + f.cls.mro() if v.func.attr in c.methods]
+        rets = [x for m in impls for x in walk_own(m.node) if isinstance(x, ast.Return)]
+        if impls and rets and all(x.value is not None and _is_init_value(x.value, target, m, depth + 1) for m in impls
+                                  for x in walk_own(m.node) if isinstance(x, ast.Return)):
+            return True
     if isinstance(v, (ast.Dict, ast.List)) and not (getattr(v, "keys", None) or getattr(v, "elts", None)):
         return True
     if isinstance(v, ast.Tuple):
@@ -48,7 +58,7 @@ def accumulator_writes(ctx):
             elif isinstance(n, ast.Assign):
                 for t in n.targets:
                     if isinstance(t, ast.Subscript) and _base_attr(t) in PROFILE_FIELDS:
-                        if _is_init_value(n.value, t):
+                        if _is_init_value(n.value, t, f):
                             pm = pm or parent_map(f.node)
                             guarded = False
                             cur = n
